@@ -155,6 +155,9 @@ fn plan(tier: Tier) -> &'static Plan {
 }
 
 impl Check for C08 {
+    fn quick_is_thorough(&self) -> bool {
+        true
+    }
     fn id(&self) -> &'static str {
         "C08"
     }
